@@ -1264,9 +1264,14 @@ fn cmd_check(a: &Args) -> i32 {
         .collect();
 
     // ---- simulation batches
+    let sim_ok = gens::AVAILABLE;
+    if !sim_ok {
+        println!("NOTE: the generator programs could not be compiled into the simulator (they use something the seams do not cover; see gensim/build.first.log): NO simulation batch is run. What is judged: the compiled tables against the independent CLDR re-derivation, the lookup sweeps (S4-S7), and the real generator binaries re-run as ordinary processes (uncontrolled directory and hash order)");
+    }
+    let (layout_runs, likely_runs) = if sim_ok { (layout_runs, likely_runs) } else { (0, 0) };
     // one run of each program under the all-default schedule on this thread first: settles, before
     // sixteen workers start, whether the programs need the thread scheduler (sim::USE_SHUTTLE)
-    for g in [Gen::Layout, Gen::Likely] {
+    for g in [Gen::Layout, Gen::Likely].into_iter().filter(|_| sim_ok) {
         sim::set_label(Some(sim::RunLabel {
             gen: g,
             batch: "default",
@@ -1276,12 +1281,14 @@ fn cmd_check(a: &Args) -> i32 {
         let _ = sim::execute(g, &ctx.image, sim::replay_mode(&[]), false, false);
         sim::set_label(None);
     }
-    sim::prime_output_hints(&ctx.image);
+    if sim_ok {
+        sim::prime_output_hints(&ctx.image);
+    }
     let stride_layout = (layout_runs / 512).max(1);
     let t_sim = Instant::now();
     // deterministic adjacency-covering family first (seed-independent), then the seeded search
     let n_dir = names_of(&ctx.image, "data/cldr-misc-full/main").len();
-    let cover_runs = if a.opts.get("cover").map(|s| s.as_str()) == Some("off") { 0 } else { world::zigzag_family_size(n_dir) as u64 };
+    let cover_runs = if a.opts.get("cover").map(|s| s.as_str()) == Some("off") || !sim_ok { 0 } else { world::zigzag_family_size(n_dir) as u64 };
     let secs = |q: u64, t: u64| std::time::Duration::from_secs(opt_u64(a, "budget-s", if tier == "quick" { q } else { t }));
     let cvr = run_batch_of(&ctx, Batch::Cover, Gen::Layout, seed, cover_runs, threads, 64, secs(60, 600));
     // a program that asks for the core count gets the family a second time, on a one-core machine
@@ -1316,7 +1323,7 @@ fn cmd_check(a: &Args) -> i32 {
     // or looks at modification times gets a seeded search over histories.
     let t_sess = Instant::now();
     let mut sess: Vec<(Gen, u64, bool, SessCover)> = vec![];
-    for g in [Gen::Layout, Gen::Likely] {
+    for g in [Gen::Layout, Gen::Likely].into_iter().filter(|_| sim_ok) {
         let probe = sim::execute(g, &ctx.image, sim::replay_mode(&[]), false, false);
         let stateful = probe.fs_mutations > 0 || probe.metadata_queries > 0;
         let n = match a.opts.get("sessions") {
@@ -1409,7 +1416,13 @@ fn cmd_check(a: &Args) -> i32 {
     // the real processes run in a scratch copy of the repository (made by run.sh), never in /repo:
     // whatever a generator leaves on disk must not reach the tree the checks are judged on
     let real_cwd = PathBuf::from(a.opts.get("real-cwd").cloned().unwrap_or_else(|| REPO_CRATE.to_string()));
-    let real_n = opt_u64(a, "real-runs", if tier == "quick" { 2 } else { 12 });
+    let real_n = opt_u64(a, "real-runs", match (tier.as_str(), sim_ok) {
+        ("quick", true) => 2,
+        (_, true) => 12,
+        // nothing else executes the generators in this build
+        ("quick", false) => 24,
+        (_, false) => 400,
+    });
     let mut real_done = 0u64;
     let mut real_viol: Vec<(Gen, Violation, String)> = vec![];
     let mut real_note = String::from("not requested");
@@ -1435,9 +1448,9 @@ fn cmd_check(a: &Args) -> i32 {
         }
     }
     println!("real re-runs of the generator binaries (fidelity cross-check): {} done, {} mismatching ({})", real_done, real_viol.len(), real_note);
-    let fault_runs = opt_u64(a, "fault-runs", if tier == "quick" { 6_000 } else { 300_000 }) / if isolated { 6 } else { 1 };
+    let fault_runs = if sim_ok { opt_u64(a, "fault-runs", if tier == "quick" { 6_000 } else { 300_000 }) / if isolated { 6 } else { 1 } } else { 0 };
     let hf_lay = run_fault_batch(&ctx, Gen::Layout, seed, fault_runs, threads, secs(30, 600));
-    let hf_lik = run_fault_batch(&ctx, Gen::Likely, seed, (fault_runs / 100).max(12), threads, secs(30, 600));
+    let hf_lik = run_fault_batch(&ctx, Gen::Likely, seed, if sim_ok { (fault_runs / 100).max(12) } else { 0 }, threads, secs(30, 600));
     for (name, c) in [("covering family", &cvr), ("generate_layout seeded search", &lay), ("generate_likelysubtags seeded search", &lik)] {
         if c.requested_not_run > 0 {
             println!("NOTE: {}: {} of the requested runs were not executed (wall-clock budget of the batch; the program has become expensive to run)", name, c.requested_not_run);
@@ -1671,7 +1684,7 @@ fn cmd_check(a: &Args) -> i32 {
 
     // ---- evidence
     let wall = t0.elapsed().as_secs_f64();
-    let mut samples = evidence_samples(&ctx, seed);
+    let mut samples = if sim_ok { evidence_samples(&ctx, seed) } else { vec![json!({"note": "no simulated run in this build: the generator programs could not be compiled into the simulator", "real_runs_judged": real_done})] };
     if let Some(cs) = &conc_rep.sample {
         samples.push(cs.clone());
     }
@@ -1681,8 +1694,10 @@ fn cmd_check(a: &Args) -> i32 {
         .zip(lay.pair_ba.iter())
         .filter(|(a, b)| **a && **b)
         .count();
-    let total_runs = lay.runs + lik.runs + cvr.runs + cvr1.runs + sess.iter().map(|(_, _, _, c)| c.runs).sum::<u64>();
-    let distinct_nontrivial = {
+    let total_runs = lay.runs + lik.runs + cvr.runs + cvr1.runs + sess.iter().map(|(_, _, _, c)| c.runs).sum::<u64>() + if sim_ok { 0 } else { real_done.max(1) };
+    let distinct_nontrivial = if !sim_ok {
+        0
+    } else {
         // distinct seam-level executions (event-log digests) other than the all-default schedule's
         let base_l = sim::execute(Gen::Layout, &ctx.image, sim::replay_mode(&[]), false, false).log_digest;
         let base_k = sim::execute(Gen::Likely, &ctx.image, sim::replay_mode(&[]), false, false).log_digest;
@@ -1694,7 +1709,7 @@ fn cmd_check(a: &Args) -> i32 {
     sum.add(&lay.stats);
     sum.add(&lik.stats);
     sum.add(&cvr.stats);
-    let ev = json!({
+    let mut ev = json!({
         "property_id": PROPERTY,
         "tier": tier,
         "seed": seed,
@@ -1704,7 +1719,8 @@ fn cmd_check(a: &Args) -> i32 {
         "coverage": {
             "evaluations": total_runs,
             "distinct_nontrivial": distinct_nontrivial,
-            "rule": "one evaluation = one simulated execution of a generator main() (and of every thread it starts) from start to finish — or to the crash point at which a run of a session is cut short — under a seeded schedule (read_dir order, hasher keys and iteration tweak of every HashMap/HashSet, short-read/EINTR plan of every opened file, one read failing with EIO in a sixth of the runs, short-write/EINTR plan of every output stream, the open-file limit once a program hoards descriptors, and for programs with threads: the task chosen at every scheduling step, deadlines passed, core count); the runs of the crash-restart sessions (earlier runs, second instances, judged runs) are counted too. Two executions are distinct when the digest of their seam-level event log differs (every seam call with its decision and a digest of what it returned or printed); non-trivial = differs from the event log of the all-default schedule (sorted directory, keys (0,0), no tweak).",
+            "generators_compiled_into_the_simulator": sim_ok,
+            "rule": if !sim_ok { "DEGRADED BUILD: the generator programs could not be compiled into the simulator, so no simulated run was executed; one evaluation = one real execution of a generator binary as an ordinary process (uncontrolled directory and hash order, no fault injection), judged by the same output oracle. The table-content clauses (S1-S7, S5) were evaluated as always." } else { "one evaluation = one simulated execution of a generator main() (and of every thread it starts) from start to finish — or to the crash point at which a run of a session is cut short — under a seeded schedule (read_dir order, hasher keys and iteration tweak of every HashMap/HashSet, short-read/EINTR plan of every opened file, one read failing with EIO in a sixth of the runs, the output device filling up or one metadata query failing with EIO in an eighth each, short-write/EINTR plan of every output stream, the open-file limit once a program hoards descriptors, and for programs with threads: the task chosen at every scheduling step, deadlines passed, core count); the runs of the crash-restart sessions (earlier runs, second instances, judged runs) are counted too. Two executions are distinct when the digest of their seam-level event log differs (every seam call with its decision and a digest of what it returned or printed); non-trivial = differs from the event log of the all-default schedule (sorted directory, keys (0,0), no tweak)." },
             "samples": samples,
             "exhaustive": false,
             "simulated_runs": { "generate_layout_seeded_search": lay.runs, "generate_layout_adjacency_covering_family": cvr.runs, "generate_likelysubtags": lik.runs },
@@ -1929,6 +1945,11 @@ fn cmd_check(a: &Args) -> i32 {
     });
     if let Some(parent) = evidence_path.parent() {
         std::fs::create_dir_all(parent).ok();
+    }
+    if !sim_ok {
+        // a degraded build claims no exploration: level "other" with an explanation
+        ev["level"] = json!("other");
+        ev["coverage"]["explanation"] = json!("DEGRADED BUILD: the generator programs do not compile behind the simulator's seams, so no deterministic simulation of the generators was possible in this run. Evaluated instead: the compiled tables against the independent CLDR re-derivation (S1-S3, exhaustive), the lookup sweeps S4/S6, the foreign-machine row checks S5, the concurrent-callers simulation S7 of the library (when built), and `evaluations` real executions of the generator binaries as ordinary processes (uncontrolled directory and hash order, no fault injection) judged by the output oracle.");
     }
     if let Err(e) = std::fs::write(&evidence_path, serde_json::to_string_pretty(&ev).unwrap() + "\n") {
         harness_error(&format!("cannot write {}: {}", evidence_path.display(), e));
